@@ -166,12 +166,24 @@ pub(crate) fn map_remove(mut args: ArgumentResult, visitor: &mut Visitor) -> Sas
 }
 
 pub(crate) fn map_set(mut args: ArgumentResult, visitor: &mut Visitor) -> SassResult<Value> {
-    let key_position = args.len().saturating_sub(2);
-    let value_position = args.len().saturating_sub(1);
+    // The key and the value always come after the map
+    let key_position = args.len().saturating_sub(2).max(1);
+    let value_position = args.len().saturating_sub(1).max(2);
+    let num_rest_args = if args.named.is_empty() {
+        args.len().checked_sub(1)
+    } else {
+        None
+    };
 
     let mut map = args
         .get_err(0, "map")?
         .assert_map_with_name("map", args.span())?;
+
+    match num_rest_args {
+        Some(0) => return Err(("Expected $args to contain a key.", args.span()).into()),
+        Some(1) => return Err(("Expected $args to contain a value.", args.span()).into()),
+        _ => {}
+    }
 
     let key = Spanned {
         node: args.get_err(key_position, "key")?,
